@@ -75,6 +75,29 @@ def shards(tier):
     return 16
 
 
+def augment(model):
+    """Every C08 model also has a section type whose datatype refuses
+    (ValueError) a section with 'marker bad', usable inside a holder."""
+    if any(t["name"] == "sdt" for t in model["types"]):
+        return
+    model["types"].append(
+        {"kind": "section", "name": "sdt", "keytype": None, "datatype": None,
+         "raw_datatype": "zcverif_dt.fam.needs_marker", "extends": None,
+         "implements": None, "children": [
+             {"kind": "key", "name": "marker", "datatype": "string",
+              "required": False, "handler": None, "attribute": None,
+              "default": None, "defaults": []}]})
+    model["types"].append(
+        {"kind": "section", "name": "sdtholder", "keytype": None,
+         "datatype": None, "extends": None, "implements": None,
+         "children": [{"kind": "multisection", "name": "*", "type": "sdt",
+                       "required": False, "handler": None,
+                       "attribute": "inner_sdt"}]})
+    model["children"].append(
+        {"kind": "multisection", "name": "*", "type": "sdtholder",
+         "required": False, "handler": None, "attribute": "sdt_holders"})
+
+
 # ---------------------------------------------------------------------------
 # fault injection on trees: returns (culprit item or node, role) or None
 
@@ -309,6 +332,23 @@ def _inject_in(rng, res, root, node, cont, path, kind):
         it = ["s", dup]
         _ins_at(rng, node, it, after=src)
         return it, "closer-or-header", "match"
+    if kind == "section-datatype":
+        # the section datatype of a section nested in a holder refuses it;
+        # revealed when the holder closes
+        if cont.name != "sdtholder":
+            return None
+        bad = texts.mknode("sdt", rng.choice([None, "sd1"]), "pair")
+        bad["items"].append(["k", "marker", "bad"])
+        it = ["s", bad]
+        _ins_at(rng, node, it)
+        if node["form"] == "empty":
+            node["form"] = "pair"
+        parent = root
+        for i in path[:-1]:
+            parent = parent["items"][i][1]
+        holder = [x for x in parent["items"]
+                  if x[0] == "s" and x[1] is node][0]
+        return holder, "closer+inner", "sectionconv", it
     if kind == "unclosed":
         cand = []
         for c in slots:
@@ -323,7 +363,8 @@ def _inject_in(rng, res, root, node, cont, path, kind):
     return None
 
 
-KINDS = ["raw-syntax", "raw-syntax", "redefine", "undefined-in-directive",
+KINDS = ["section-datatype", "section-datatype", "raw-syntax", "raw-syntax",
+         "redefine", "undefined-in-directive",
          "bad-dollar-in-directive", "undefined-in-value",
          "bad-dollar-in-value", "unknown-key", "repeat-single", "bad-key",
          "bad-value", "bad-value", "unknown-type", "abstract-type",
@@ -406,8 +447,16 @@ def judge(ctx, p, rng, dirpath):
         if r is None:
             res.count("not_applicable")
             continue
-        target, role, stage = r
-        ok_idx, rl = culprit_lines(root, target, role)
+        inner = None
+        if len(r) == 4:
+            target, role, stage, inner = r
+        else:
+            target, role, stage = r
+        ok_idx, rl = culprit_lines(root, target,
+                                   "closer" if inner else role)
+        if inner is not None and ok_idx and ok_idx[0] is not None:
+            more, _ = culprit_lines(root, inner, "closer")
+            ok_idx = list(ok_idx) + [i for i in (more or []) if i is not None]
         if not ok_idx or ok_idx[0] is None:
             res.count("culprit_not_found")
             continue
@@ -428,9 +477,12 @@ def judge(ctx, p, rng, dirpath):
                           for i in ok_idx]
         text = "".join(l + "\n" for l in lines)
         # the reference must agree the fault is effective
-        exp = refmatch.conform(p.res, text) if stage not in (
-            "syntax", "subst-missing", "subst-syntax") else \
-            _syntax_expect(text)
+        if stage == "sectionconv":
+            exp = ("reject", "convert", "section datatype")
+        elif stage not in ("syntax", "subst-missing", "subst-syntax"):
+            exp = refmatch.conform(p.res, text)
+        else:
+            exp = _syntax_expect(text)
         if exp[0] != "reject":
             res.count("fault_not_effective")
             continue
@@ -467,6 +519,7 @@ def judge(ctx, p, rng, dirpath):
             else:
                 e = observe(p.schema, main)
             res.count("judged")
+            res.count("kind:" + kind)
             if exotic:
                 res.count("judged_with_exotic_line_break_chars")
             if included is True:
@@ -545,6 +598,22 @@ def check(res, case, e, want, stage, target, kind):
                         "nolineno" if got[0] in (None, -1) else "line",
                         "nourl" if not got[1] else "url"))
         return
+    if stage == "sectionconv":
+        ex = getattr(e, "exception", None)
+        ok = (isinstance(e, ZConfig.DataConversionError)
+              and type(ex) is ValueError and str(ex) == "marker is bad"
+              and hasattr(getattr(e, "value", None), "getSectionAttributes"))
+        if not ok:
+            res.violate("conversion-error-lacks-details", case,
+                        {"class": "DataConversionError",
+                         "exception": "ValueError('marker is bad')",
+                         "value": "the section value"},
+                        {"class": type(e).__name__,
+                         "exception": repr(ex)[:120],
+                         "value": repr(getattr(e, "value", None))[:80]},
+                        detail="kind=%s files=%r" % (kind, case["files"]),
+                        vsig="sectionconv|%s" % type(ex).__name__)
+        return
     if stage in ("keyconv", "valueconv"):
         text = target[1] if stage == "keyconv" else target[2]
         ok = (isinstance(e, ZConfig.DataConversionError)
@@ -563,7 +632,8 @@ def run_shard(ctx):
     rng = ctx.rng("faults")
     dirpath = os.path.join(ctx.tmp, "c08")
     for p in cc.pairs(ctx, N_MODELS[ctx.tier], TEXTS[ctx.tier],
-                      fault_plan=lambda r: 0, p_bad_value=0.0):
+                      fault_plan=lambda r: 0, p_bad_value=0.0,
+                      augment=augment):
         judge(ctx, p, rng, dirpath)
 
 
